@@ -8,6 +8,10 @@ from spec import scopes, es5_lexical
 LEVEL = 'other'
 
 PROGRAMS = [
+    # hoisting seen from an inner scope that closes first: the nearer declaration comes later in the text than the use, an outer one earlier
+    'var value = 100; function middle(other) { function inner() { return value + other; } var value = other + 1; return inner; }',
+    'var v = 1; function f(p) { try { g(); } catch (e) { h(v, p); } var v = p; return v; }',
+    'function outer(n) { var k = 1; return function () { return function () { return k + later + n; }; var later = 2; }; }',
     'var a = 1; function f(b) { var c = a + b; return function () { return c + d; }; }',
     'function f(x, y) { var z = x + y; function g(q) { return q + z + x; } return g(z); } f(1, 2);',
     'function run(t, c) { try { t(); } catch (taskError) { try { c(); } catch (cleanupError) { report(taskError, cleanupError); } } }',
